@@ -138,9 +138,11 @@ def measure_x(tableau, qubit_position, measurement_determinism="probabilistic"):
     """
     # TODO: be able to handle mixed states in the future
     stabilizer_state_new = hadamard_gate(tableau, qubit_position)
-    _, outcome, _ = z_measurement_gate(
+    stabilizer_state_new, outcome, _ = z_measurement_gate(
         stabilizer_state_new, qubit_position, measurement_determinism
     )
+    # rotate back, so that the tableau describes the state after the X measurement
+    hadamard_gate(stabilizer_state_new, qubit_position)
     return outcome
 
 
@@ -165,9 +167,12 @@ def measure_y(tableau, qubit_position, measurement_determinism="probabilistic"):
     # apply H
     new_tableau = hadamard_gate(new_tableau, qubit_position)
 
-    _, outcome, _ = z_measurement_gate(
+    new_tableau, outcome, _ = z_measurement_gate(
         new_tableau, qubit_position, measurement_determinism
     )
+    # rotate back, so that the tableau describes the state after the Y measurement
+    new_tableau = hadamard_gate(new_tableau, qubit_position)
+    phase_gate(new_tableau, qubit_position)
     return outcome
 
 
